@@ -289,7 +289,9 @@ def prove_unit(uname, tier='quick', jobs=8, only=None):
     result['cfile'] = cfile
     result['assumed'] = sorted(list(stubs.keys()) + list(unit.get('assumed_models', [])))
     todo = [(q, s) for q, s in unit['functions'].items() if s.get('prove', True) and (only is None or q in only or s['_cname'] in only)]
-    proved_here = [s['_cname'] for q, s in unit['functions'].items()]
+    # callees marked inline_in_callers keep their body at call sites (tiny functions, or functions returning a
+    # pointer to an existing object, for which contract replacement is slower than the body)
+    proved_here = [s['_cname'] for q, s in unit['functions'].items() if not s.get('inline_in_callers')]
     with cf.ThreadPoolExecutor(max_workers=jobs) as ex:
         futs = []
         for q, s in todo:
